@@ -461,6 +461,13 @@ func TestVerifC15(t *testing.T) {
 			}
 		}
 	}
+	// a malformed client query with two OPT records (the first one carrying options): whatever
+	// the server does with it, nothing of it may reach the upstream next to the fresh OPT
+	for _, opts := range [][]string{nil, clientOptionAlpha} {
+		q := base
+		q.Opt, q.DO, q.Options, q.Shape = 4096, true, opts, "2opt"
+		clients = append(clients, q)
+	}
 	// upstream answers
 	var ups []hpipe.UpOutcome
 	for _, big := range []bool{false, true} {
